@@ -11,5 +11,6 @@ INVARIANT TypeOK
 INVARIANT AgreeInv
 INVARIANT PackLen
 INVARIANT WriteInv
+INVARIANT ShortTransferInv
 INVARIANT AgreeAllInv
 INVARIANT EmitState
